@@ -3,24 +3,36 @@ Q_DEV = {"quick": ["dev"], "thorough": ["dev"]}
 Q_DEV_T_BOTH = {"quick": ["dev"], "thorough": ["dev", "nodebug"]}
 
 ND = {"quick": ["nodebug"], "thorough": ["nodebug"]}
+def ponly(module):
+    """quick tier only (thorough runs the whole module in both profiles): the may-panic harnesses without debug assertions"""
+    return {"module": module, "profiles": {"quick": ["nodebug"], "thorough": []}, "ponly": True}
 def funnel(*names):
     return {"module": "c02", "profiles": ND, "filters": ["c02::q_" + n for n in names]}
 
 PROPS = {
     "C02": {"kani": [{"module": "c02", "profiles": {"quick": ["nodebug"], "thorough": ["nodebug"]}}], "wmm": True, "prepare": True},
-    "C06": {"kani": [{"module": "c06", "profiles": Q_DEV_T_BOTH}]},
-    "C07": {"kani": [{"module": "c07", "profiles": Q_DEV_T_BOTH}], "unwind": True},
+    "C06": {"kani": [{"module": "c06", "profiles": Q_DEV_T_BOTH}, ponly("c06")]},
+    "C07": {"kani": [{"module": "c07", "profiles": Q_DEV_T_BOTH}, ponly("c07")], "unwind": True},
     "C14": {"kani": [{"module": "c14", "profiles": Q_DEV}]},
-    "C15": {"kani": [{"module": "c15", "profiles": Q_DEV_T_BOTH}]},
+    "C15": {"kani": [{"module": "c15", "profiles": Q_DEV_T_BOTH}, ponly("c15")]},
     "C17": {"kani": [{"module": "c17", "profiles": Q_DEV}]},
-    "C10": {"kani": [{"module": "c10", "profiles": Q_DEV_T_BOTH}], "unwind": ["ThinArc::with_arc_mut", "ThinArc::with_arc", "Arc::into_thin"]},
-    "C11": {"kani": [{"module": "c11", "profiles": Q_DEV}]},
+    "C10": {"kani": [{"module": "c10", "profiles": Q_DEV_T_BOTH}, ponly("c10"), {"module": "c07", "profiles": {"quick": ["dev", "nodebug"], "thorough": ["dev", "nodebug"]}, "filters": ["c07::qp_thin_"]}], "unwind": ["ThinArc::with_arc_mut", "ThinArc::with_arc", "Arc::into_thin"]},
+    "C11": {"kani": [{"module": "c11", "profiles": Q_DEV}],
+            # the OffsetArc / raw-offset forms re-build a transient Arc from the pointer: also when the callback or Clone unwinds
+            # the pointer must still lead to the same allocation with the same count
+            "unwind": ["OffsetArc::with_arc", "OffsetArc::make_mut", "Arc::with_raw_offset_arc", "ArcBorrow::with_arc"]},
     "C12": {"kani": [{"module": "c12", "profiles": Q_DEV}]},
-    "C05": {"kani": [{"module": "c05", "profiles": Q_DEV_T_BOTH}]},
-    "C04": {"kani": [{"module": "c04", "profiles": Q_DEV}], "unwind": ["ThinArc::with_arc_mut", "ThinArc::with_arc", "OffsetArc::with_arc", "ArcBorrow::with_arc", "Arc::with_raw_offset_arc"]},
+    "C05": {"kani": [{"module": "c05", "profiles": Q_DEV_T_BOTH}, ponly("c05")]},
+    "C04": {"kani": [{"module": "c04", "profiles": Q_DEV},
+                     # count bookkeeping of the operations that redirect or consume a handle (harnesses shared with C08 / C09)
+                     {"module": "c08", "profiles": Q_DEV, "filters": ["c08::q_arc_make_mut", "c08::q_arc_make_unique", "c08::q_offset_make_mut"]},
+                     {"module": "c09", "profiles": Q_DEV, "filters": ["c09::q_try_unwrap", "c09::q_unwrap_or_clone", "c09::q_try_unique"]}], "unwind": ["ThinArc::with_arc_mut", "ThinArc::with_arc", "OffsetArc::with_arc", "ArcBorrow::with_arc", "Arc::with_raw_offset_arc"]},
     "C03": {"kani": [{"module": "c03", "profiles": Q_DEV_T_BOTH}, funnel("funnel_get_unique", "funnel_try_from", "funnel_make_unique", "funnel_offset_make_mut", "funnel_thin_with_arc_mut_get_mut", "tv_get_mut", "tv_is_unique", "tv_try_unique", "tv_make_mut")], "wmm": True, "prepare": True, "unwind": True},
     "C08": {"kani": [{"module": "c08", "profiles": Q_DEV_T_BOTH}, funnel("funnel_make_unique", "funnel_offset_make_mut", "tv_make_mut", "tv_is_unique")], "wmm": True, "prepare": True, "unwind": ["Arc::make_mut", "Arc::make_unique", "OffsetArc::make_mut"]},
-    "C09": {"kani": [{"module": "c09", "profiles": Q_DEV_T_BOTH}, funnel("funnel_try_from", "tv_try_unwrap", "tv_unwrap_or_clone", "tv_try_unique", "tv_drop")], "wmm": True, "prepare": True, "unwind": ["Arc::unwrap_or_clone"]},
+    "C09": {"kani": [{"module": "c09", "profiles": Q_DEV_T_BOTH}, funnel("funnel_try_from", "tv_try_unwrap", "tv_unwrap_or_clone", "tv_try_unique", "tv_drop")], "wmm": True, "prepare": True,
+            # every API that runs user code with a transient handle in flight: a reference released by an unwinding path is
+            # what lets a later try_unwrap hand the value out while another owner still keeps it
+            "unwind": True},
     "C01": {"kani": [{"module": "c01", "profiles": Q_DEV}], "unwind": True},
     "C16": {"kani": [{"module": "c16", "profiles": Q_DEV_T_BOTH}, {"module": "c16n", "crate": "kani_nostd", "profiles": Q_DEV}], "unwind": ["abort_nostd"]},
 }
